@@ -1510,7 +1510,10 @@ def optimize_blockwise_fusion_array(expr):
         seen = set()
         stack = [expr]
         dependents = defaultdict(set)  # name -> set of dependent names
-        dependencies = {}  # name -> set of dependency names
+        # name -> dependency names, in operand order (a dict used as an ordered
+        # set: the order decides the order of a fused group's members and so
+        # its name, which must not depend on the process's string hashing)
+        dependencies = {}
         expr_mapping = {}  # name -> expr
 
         while stack:
@@ -1521,7 +1524,7 @@ def optimize_blockwise_fusion_array(expr):
             seen.add(node._name)
 
             if is_fusable_blockwise(node):
-                dependencies[node._name] = set()
+                dependencies[node._name] = {}
                 if node._name not in dependents:
                     dependents[node._name] = set()
                 expr_mapping[node._name] = node
@@ -1530,7 +1533,7 @@ def optimize_blockwise_fusion_array(expr):
                 stack.append(operand)
                 if is_fusable_blockwise(operand):
                     if node._name in dependencies:
-                        dependencies[node._name].add(operand._name)
+                        dependencies[node._name][operand._name] = None
                     dependents[operand._name].add(node._name)
                     expr_mapping[operand._name] = operand
                     expr_mapping[node._name] = node
@@ -1560,7 +1563,7 @@ def optimize_blockwise_fusion_array(expr):
                 seen_in_group.add(node._name)
 
                 group.append(node)
-                for dep_name in dependencies.get(node._name, set()):
+                for dep_name in dependencies.get(node._name, ()):
                     dep = expr_mapping[dep_name]
 
                     stack_names = {s._name for s in stack}
